@@ -21,10 +21,20 @@ Theorem C08_loaders_return_the_stored_value :
     wt t v = true -> exhausted_in t v = false ->
     ser_top pf h t v = (evs, SDone) ->
     base mod max_unit t = 0 ->
+    (l = LMem -> align_of t <= 64) ->
     exists e, load l base h t (store_file (evs, SDone)) =
                 Ok (e, ndrop (nlen (bytes_of evs)) (region l (bytes_of evs)), evs_len evs) /\
               erase e = v.
 Proof. exact load_stored_file. Qed.
+
+(* load_mem can only guarantee 64-byte alignment: a type whose native alignment is larger is
+   refused up front with AlignmentError, whatever the file holds *)
+Theorem C08_load_mem_refuses_overaligned_types :
+  forall base h t file, 64 < align_of t -> load LMem base h t file = Err AlignmentError.
+Proof.
+  intros base h t file H. cbn [load]. unfold mem_precheck.
+  destruct (N.ltb_spec 64 (align_of t)) as [_|Hle]; [reflexivity|lia].
+Qed.
 
 (* For ANY file (stored by this library or not) that one of the three region-keeping loaders
    accepts: every borrowed part of the loaded structure lies inside the backing region owned by
@@ -43,7 +53,8 @@ Proof.
   - unfold deser_full_top in H. unfold rbind in H.
     destruct (check_header None h file 0) as [[[u i] p]|?|?]; try discriminate.
     exact (full_noref None t i p e rest n H).
-  - destruct (eps_top_ok base h t _ e rest n H) as (A & _ & B). split; assumption.
+  - destruct (mem_precheck t); [discriminate|].
+    destruct (eps_top_ok base h t _ e rest n H) as (A & _ & B). split; assumption.
   - destruct (eps_top_ok base h t _ e rest n H) as (A & _ & B). split; assumption.
   - destruct (eps_top_ok base h t _ e rest n H) as (A & _ & B). split; assumption.
 Qed.
@@ -79,6 +90,7 @@ Proof. exact load_truncated. Qed.
 
 Print Assumptions C08_loaders_return_the_stored_value.
 Print Assumptions C08_borrowed_parts_lie_inside_the_backing_region.
+Print Assumptions C08_load_mem_refuses_overaligned_types.
 Print Assumptions C08_region.
 Print Assumptions C08_flags.
 Print Assumptions C08_truncated_files.
